@@ -107,8 +107,8 @@ def main():
         hist = old.get("history", [])
         hist.append({"at_repo_head": head, "tier": tier, "verdict": verdict})
         meta["history"] = hist
-        for k in ("needs", "breaks"):
-            if k in old:
+        for k in ("needs", "breaks", "suite", "suite_ok"):
+            if k in old and k not in meta:
                 meta[k] = old[k]
         json.dump(meta, open(mp, "w"), indent=1, sort_keys=True)
     finally:
